@@ -377,6 +377,84 @@ type multiFlag []string
 func (m *multiFlag) String() string     { return strings.Join(*m, ",") }
 func (m *multiFlag) Set(s string) error { *m = append(*m, s); return nil }
 
+// prepareExtra applies the `// verif:needs a,b,T.f` line guards of an in-package harness file: a line
+// carrying the marker is dropped when one of the named package-level identifiers (or struct fields
+// T.f) does not exist in the tree under test, so that a refactoring of private names there degrades
+// the harness (less is reset / an accessor reports "unavailable") instead of breaking its build.
+// The processed copy is written to out/src and its path returned.
+func prepareExtra(absRepo, out, extra string) string {
+	have := map[string]bool{}
+	fs := token.NewFileSet()
+	names, _ := filepath.Glob(filepath.Join(absRepo, "*.go"))
+	for _, n := range names {
+		if strings.HasSuffix(n, "_test.go") {
+			continue
+		}
+		f, err := parser.ParseFile(fs, n, nil, parser.SkipObjectResolution)
+		if err != nil {
+			continue
+		}
+		for _, d := range f.Decls {
+			switch d := d.(type) {
+			case *ast.FuncDecl:
+				if d.Recv == nil {
+					have[d.Name.Name] = true
+				}
+			case *ast.GenDecl:
+				for _, sp := range d.Specs {
+					switch sp := sp.(type) {
+					case *ast.ValueSpec:
+						for _, id := range sp.Names {
+							have[id.Name] = true
+						}
+					case *ast.TypeSpec:
+						have[sp.Name.Name] = true
+						if st, ok := sp.Type.(*ast.StructType); ok {
+							for _, fl := range st.Fields.List {
+								for _, id := range fl.Names {
+									have[sp.Name.Name+"."+id.Name] = true
+								}
+							}
+						}
+					}
+				}
+			}
+		}
+	}
+	b, err := os.ReadFile(extra)
+	if err != nil {
+		fmt.Fprintln(os.Stderr, "instrument:", err)
+		os.Exit(2)
+	}
+	var outLines []string
+	dropped := 0
+	for _, line := range strings.Split(string(b), "\n") {
+		if i := strings.Index(line, "// verif:needs "); i >= 0 {
+			ok := true
+			for _, n := range strings.Split(strings.TrimSpace(line[i+len("// verif:needs "):]), ",") {
+				if !have[strings.TrimSpace(n)] {
+					ok = false
+				}
+			}
+			if !ok {
+				dropped++
+				continue
+			}
+		}
+		outLines = append(outLines, line)
+	}
+	dst := filepath.Join(out, "src", "extra_"+filepath.Base(extra))
+	if err := os.WriteFile(dst, []byte(strings.Join(outLines, "\n")), 0644); err != nil {
+		fmt.Fprintln(os.Stderr, "instrument:", err)
+		os.Exit(2)
+	}
+	if dropped > 0 {
+		fmt.Fprintf(os.Stderr, "instrument: %s: %d guarded line(s) dropped (private names not present in this tree)\n", filepath.Base(extra), dropped)
+	}
+	adst, _ := filepath.Abs(dst)
+	return adst
+}
+
 func main() {
 	repo := flag.String("repo", "/repo", "module under test")
 	out := flag.String("out", "", "output directory")
@@ -392,6 +470,12 @@ func main() {
 	absRepo, _ := filepath.Abs(*repo)
 	os.MkdirAll(filepath.Join(*out, "src"), 0755)
 	overlay := map[string]string{}
+	extraDst := map[string]string{} // processed copy -> name in the package
+	for i, ex := range extras {
+		pc := prepareExtra(absRepo, *out, ex)
+		extraDst[pc] = "zz_verif_" + filepath.Base(ex)
+		extras[i] = pc
+	}
 
 	// the virtual runtime package
 	for sub, dst := range map[string]string{"core": "zzvrt", "vsync": "zzvrt/vsync", "vatomic": "zzvrt/vatomic", "vos": "zzvrt/vos", "vtime": "zzvrt/vtime"} {
@@ -405,7 +489,7 @@ func main() {
 	if *mode == "plain" {
 		for _, ex := range extras {
 			af, _ := filepath.Abs(ex)
-			overlay[filepath.Join(absRepo, "zz_verif_"+filepath.Base(ex))] = af
+			overlay[filepath.Join(absRepo, extraDst[ex])] = af
 		}
 		writeOverlay(*out, overlay)
 		return
@@ -435,7 +519,7 @@ func main() {
 	}
 	for _, ex := range extras {
 		af, _ := filepath.Abs(ex)
-		files = append(files, &srcFile{path: af, dst: filepath.Join(absRepo, "zz_verif_"+filepath.Base(ex))})
+		files = append(files, &srcFile{path: af, dst: filepath.Join(absRepo, extraDst[ex])})
 	}
 	var asts []*ast.File
 	for _, sf := range files {
